@@ -1,12 +1,58 @@
 (** C03 — tables, HTML elements, links and template calls parse to their
-    written structure (model: Model/Attrs.v; proofs: Proofs/AttrsProofs.v).
-    PARTIAL: the theorem covers attribute maps (the part shared by tables,
-    rows, cells and HTML elements) for every map; the r x c table structure,
-    element content and argument lists are decided per run by execution
-    against the structure the generator wrote. *)
+    written structure (models: Model/Attrs.v, Model/Tables.v; proofs:
+    Proofs/AttrsProofs.v, Proofs/TablesProofs.v).
+    PARTIAL: the theorems cover attribute maps (the part shared by tables,
+    rows, cells and HTML elements) for every map, and the table structure for
+    every written table (any number of rows and cells, both separator styles,
+    caption, attributes, nested tables) at the level of the table handlers'
+    tokens; cell contents other than text and tables, element content and
+    argument lists are decided per run by execution against the structure the
+    generator wrote. *)
 From Coq Require Import List NArith Bool.
-From WTP Require Import Base.Str Model.Attrs Proofs.AttrsProofs.
+From WTP Require Import Base.Str Model.Attrs Proofs.AttrsProofs Model.Tables Proofs.TablesProofs.
 Import ListNotations.
+
+(* Every written table -- "{|" with optional attributes, optional "|+" caption, any number of "|-" rows with optional
+   attributes, each with one or more cells written at the start of a line ("|" / "!") or after "||" / "!!" on the line
+   of the cell before, each cell with an optional attribute section and a content of texts and further tables -- is
+   read by the table handlers (as transcribed in Model/Tables.v) into one TABLE node with exactly the written rows,
+   each with exactly the written cells of the written kind, attributes and content, in order; the handlers never
+   reach a case the machine does not transcribe, nothing is left open, and this holds at any nesting depth and under
+   whatever is open on the parser stack below the table. *)
+Theorem c03_tables_parse_to_written_grid :
+  forall t, wf_table t = true -> parse (render_table t) = Some [CN (tree_table t)].
+Proof. exact parse_written_table. Qed.
+Print Assumptions c03_tables_parse_to_written_grid.
+
+Theorem c03_table_is_one_child_of_what_is_open :
+  forall t, wf_table t = true -> forall f rest,
+    run (render_table t) (f :: rest) = Some (addchild f (CN (tree_table t)) :: rest).
+Proof. exact table_parses_as_written. Qed.
+Print Assumptions c03_table_is_one_child_of_what_is_open.
+
+(* the prescribed tree is the r x c grid: as many rows as written, each with as many cells as written *)
+Theorem c03_written_tree_is_the_grid :
+  forall ta cap rows,
+    tree_table (Table ta cap rows) = TN KTable (opt_attrs ta) (cap_tree cap ++ rows_tree rows)
+    /\ length (rows_tree rows) = length rows
+    /\ forall ra h first more,
+         tree_row (Row ra h first more) = TN KRow (opt_attrs ra) (CN (tree_body (cell_kind h) first) :: cells_tree h more)
+         /\ length (cells_tree h more) = length more.
+Proof. intros ta cap rows. split; [apply tree_table_eq|]. split.
+  - induction rows as [|r rows IH]; cbn [rows_tree length]; [reflexivity | rewrite IH; reflexivity].
+  - intros ra h first more. split; [apply tree_row_eq|].
+    revert h. induction more as [|[s b] more IH]; intros h; cbn [cells_tree length]; [reflexivity | rewrite IH; reflexivity].
+Qed.
+Print Assumptions c03_written_tree_is_the_grid.
+
+(* the hypotheses are satisfiable: a 2 x 2 table with caption, attributes, a header line and a nested table *)
+Example c03_a_written_table :
+  let t := Table (Some (1%nat, true)) (Some (Body (Some (2%nat, true)) [IText (3%nat, true)]))
+             [Row (Some (4%nat, true)) false (Body None [IText (5%nat, true)])
+                  [Cell SDouble (Body (Some (6%nat, false)) [IText (7%nat, true); ITable (Table None None [Row None true (Body None []) [Cell SBang2 (Body None [IText (8%nat, true)])]])])];
+              Row None true (Body None [IText (9%nat, true)]) [Cell (SBol false) (Body None [])]] in
+  wf_table t = true /\ parse (render_table t) = Some [CN (tree_table t)].
+Proof. split; reflexivity. Qed.
 
 (* Every attribute map with distinct URL-safe names (name characters, starting
    with a word character) and values free of double quotes, written the way
@@ -31,12 +77,12 @@ Print Assumptions c03_scanner_reads_rendered_pairs.
 From WTP Require Import Gen.GenPins.
 Module Pins.
 Import String.
-(* The models of this property were transcribed from: parser.py:parse_attrs.
+(* The models of this property were transcribed from: parser.py:parse_attrs, parser.py:table_start_fn, parser.py:table_caption_fn, parser.py:table_row_fn, parser.py:table_hdr_cell_fn, parser.py:table_cell_fn, parser.py:double_vbar_fn, parser.py:vbar_fn, parser.py:table_end_fn, parser.py:table_check_attrs, parser.py:table_row_check_attrs, parser.py:check_for_attributes.
    Gen/GenPins.v holds the digests of these functions in the current source (translate/pins.py: syntax tree without
    docstrings, comments and layout).  A different digest means that the model is no longer known to describe the
    code; the check then reports the broken tie and looks for a failing input. *)
 Theorem c03_models_describe_the_current_source :
-  pin_parse_attrs = "251c31db2f03ea9f"%string.
+  (pin_parse_attrs, pin_table_start_fn, pin_table_caption_fn, pin_table_row_fn, pin_table_hdr_cell_fn, pin_table_cell_fn, pin_double_vbar_fn, pin_vbar_fn, pin_table_end_fn, pin_table_check_attrs, pin_table_row_check_attrs, pin_check_for_attributes) = ("251c31db2f03ea9f", "20d7011fb7000668", "5236427f5da9d4d6", "df13828461ce05f8", "4525e4abe4010ca5", "63b55c3cbafdee41", "73240544b6fc6e17", "e799c125bcc56114", "56d5cfe719ca6dac", "07c792c734368fa2", "a06a8f4ccd2b3196", "225aea00660997bb")%string.
 Proof. reflexivity. Qed.
 Print Assumptions c03_models_describe_the_current_source.
 End Pins.
